@@ -122,6 +122,7 @@ type AState struct {
 }
 
 var givenAux = stackage.Auxiliary{"k": 1}
+var givenAux0 = stackage.Auxiliary{} // the caller's own map, allocated but still empty: kept by reference all the same
 var customLogger = log.New(io.Discard, "custom", 0)
 
 func setLoggerArg(s stackage.Stack, arg string) {
@@ -466,6 +467,8 @@ func Build(a AState) *Obj {
 		o.S.SetAuxiliary()
 	case "given":
 		o.S.SetAuxiliary(givenAux)
+	case "given0":
+		o.S.SetAuxiliary(givenAux0)
 	}
 	switch a.Logger {
 	case "stdout", "stderr", "custom":
@@ -678,6 +681,8 @@ func applyInner(o, d *Obj, c Call) (ret []string) {
 		switch c.Str("form") {
 		case "map":
 			o.S.SetAuxiliary(givenAux)
+		case "map0":
+			o.S.SetAuxiliary(givenAux0)
 		case "nil":
 			o.S.SetAuxiliary(nil)
 		default:
@@ -923,6 +928,11 @@ func Observe(s stackage.Stack) Obs {
 			return "none"
 		case reflect.ValueOf(a).Pointer() == reflect.ValueOf(givenAux).Pointer():
 			return "given"
+		case reflect.ValueOf(a).Pointer() == reflect.ValueOf(givenAux0).Pointer():
+			if len(a) != 0 {
+				return "other"
+			}
+			return "given0"
 		case len(a) == 0:
 			return "empty"
 		}
